@@ -134,6 +134,17 @@ class C03Scenario(ChangeScenario):
                     f"completed only on an older state; final state {E}",
                     clause='handled-final-state',
                     pattern='edit-absorbed-in-mid-cycle' if midcycle else 'other'))
+        # -- a deleted object is let go only after every deletion handler has completed (also when the next attempt is due at once) --
+        for w in env.world.writes:
+            if w['kind'] == K.plural and w['post'] is None and w['pre'] is not None and w['actor'].startswith('op:') \
+                    and 'deletionTimestamp' in w['pre']['metadata']:
+                uid = w['pre']['metadata']['uid']
+                done_before = {p['id'] for t, k, p in env.obs if k == 'call' and p.get('uid') == uid and p.get('reason') == 'delete'
+                               and p['outcome'].split(',')[0] in ('ok', 'perm') and t <= w['t']}
+                missing = [h for h in by_reason['delete'] if h not in done_before]
+                if missing:
+                    out.append(self.viol(env, 'released-before-handlers-completed', f"object {w['name']} ({uid}) was released at t={w['t']} although the deletion "
+                                                                                    f"handler(s) {missing} had not completed", clause='handled-final-state'))
         # -- downtime: one accumulated change --
         for dt in env.memo.get('downtimes', []):
             pass
@@ -193,6 +204,9 @@ def build(history: list[tuple[str, ...]], spacing: float, hset: int, fails: int,
         handlers = [dict(id='c1', on='create', script=['ok']), dict(id='c2', on='create', script=f + ['ok']),
                     dict(id='u1', on='update', script=f + ['ok']), dict(id='u2', on='update', script=['ok']),
                     dict(id='d1', on='delete', script=['ok'])]
+    if hset == 6:   # two deletion handlers (one per cycle under `asap`), the second asking for an immediate retry first
+        handlers = [dict(id='c1', on='create', script=['ok']), dict(id='u1', on='update', script=['ok']),
+                    dict(id='d1', on='delete', script=['ok']), dict(id='d2', on='delete', script=['temp0'] * fails + ['ok'])]
     if hset == 5:   # one sub-handler per item of spec.items (as in kopf's docs); the second item's sub-handler needs retries
         handlers = [dict(id='c1', on='create', script=['ok']), dict(id='u1', on='update', script=['ok']), dict(id='d1', on='delete', script=['ok'])]
         per_item = [dict(id='i1', when_item=1, script=['ok']), dict(id='i2', when_item=2, script=f + ['ok']), dict(id='i3', when_item=3, script=['ok'])]
@@ -220,6 +234,11 @@ def scenarios(tier: str) -> tuple[list[C03Scenario], list[C03Scenario], list[C03
         for spacing in (20.0, 2.0, 1.0, 0.0):
             for fails in (1, 2):
                 hist.append(build(h, spacing, 5, fails, delays=False, early_user=False, time_dev=False))
+    for h in histories(2):
+        if any(a[0] == 'delete' for a in h):
+            for spacing in (20.0, 0.0):
+                for fails in (0, 1, 2):
+                    hist.append(build(h, spacing, 6, fails, delays=False, early_user=False, time_dev=False))
     crash = [build(h, 20.0, hset, 1, kills=True, delays=False, early_user=False, time_dev=False)
              for h in histories(2 if tier == 'quick' else 3) for hset in (1, 2, 3)]
     timing = [build(h, 4.0, hset, 1, grid=2.0) for h in histories(1 if tier == 'quick' else 2) for hset in (1, 2, 3)]
